@@ -32,6 +32,8 @@ var delimCfgs = []delimCfg{
 	{Name: "three", L: "<<<", R: ">>>", CL: "<!--", CR: "-->", customAct: true, customComment: true},
 	{Name: "mbcomment", L: "{{", R: "}}", CL: "‹", CR: "›", customComment: true},
 	{Name: "dollar", L: "${", R: "}", CL: "$*", CR: "*$", customAct: true, customComment: true},
+	{Name: "symcomment", L: "{{", R: "}}", CL: "##", CR: "##", customComment: true},
+	{Name: "tilde", L: "[[", R: "]]", CL: "~", CR: "~", customAct: true, customComment: true},
 }
 
 func (d delimCfg) opts() []jet.Option {
@@ -65,6 +67,7 @@ const (
 	effEnd
 	effImport
 	effNeg // renders a negative number: the body starts with '-' but "{{-7" is no trim marker (that needs "{{- ")
+	effTry // try without catch around a body that cannot fail: renders the body
 )
 
 type seg struct {
@@ -303,8 +306,8 @@ func c03expect(segs []seg) string {
 					i++
 				case effElse, effEnd:
 					return i
-				case effIfT, effIfF:
-					cond := s.Eff == effIfT
+				case effIfT, effIfF, effTry:
+					cond := s.Eff != effIfF
 					j := run(i+1, emit && cond)
 					if j < len(segs) && segs[j].Eff == effElse {
 						j = run(j+1, emit && !cond)
@@ -365,6 +368,8 @@ func (g *c03gen) act(eff actEffect, lt, rt bool) seg {
 		s.Body = "if true"
 	case effIfF:
 		s.Body = "if false"
+	case effTry:
+		s.Body = "try"
 	case effRange:
 		s.N = g.r.Intn(3)
 		s.Body = fmt.Sprintf("range ints(0,%d)", s.N)
@@ -398,10 +403,10 @@ func (g *c03gen) genList(depth, n int) {
 			}
 			g.add(g.act(eff, g.r.Intn(2) == 0, g.r.Intn(2) == 0))
 		default:
-			eff := []actEffect{effIfT, effIfF, effRange}[g.r.Intn(3)]
+			eff := []actEffect{effIfT, effIfF, effRange, effTry}[g.r.Intn(4)]
 			g.add(g.act(eff, g.r.Intn(2) == 0, g.r.Intn(2) == 0))
 			g.genList(depth+1, g.r.Intn(4))
-			if g.r.Intn(2) == 0 {
+			if eff != effTry && g.r.Intn(2) == 0 {
 				g.add(g.act(effElse, g.r.Intn(2) == 0, g.r.Intn(2) == 0))
 				g.genList(depth+1, g.r.Intn(4))
 			}
@@ -516,6 +521,12 @@ func c03run(c *fw.Ctx, idx int) {
 		}
 	}
 	want := c03expect(g.segs)
+	if idx%5 == 0 {
+		// an earlier, unrelated execution that failed half-way through buffered text must not contribute bytes here
+		pol := jx.Run(map[string]string{"/pol.jet": "p{{try}}STALE{{ nosuchvar.y }}{{catch}}c{{end}}q{{try}}LEAKED-" + fmt.Sprint(idx) + "{{ nosuchvar.x }}{{end}}r"}, "/pol.jet", nil, nil)
+		c.Count("polluting_executions_before_case", 1)
+		_ = pol
+	}
 	files := map[string]string{"/t.jet": src, "/lib.jet": d.L + "block libblock()" + d.R + "LIB" + d.L + "end" + d.R}
 	vars := jet.VarMap{}
 	vars.Set("emptyList", []int{})
@@ -577,9 +588,9 @@ func init() {
 	fw.Register(&fw.Property{
 		ID:        "C03",
 		Technique: "segment-model output monitor over generated templates (exhaustive 3-segment windows x delimiter configs, then random)",
-		Rule: "each case is a template built from a list of segments Text|Comment|Action(trim-left,trim-right) (nested if/range/else/end, optional leading import clauses) printed in one of 12 delimiter configurations; " +
+		Rule: "each case is a template built from a list of segments Text|Comment|Action(trim-left,trim-right) (nested if/range/try/else/end, optional leading import clauses) printed in one of 14 delimiter configurations (incl. symmetric comment markers); " +
 			"all 729 ordered triples of 9 segment shapes (incl. an action whose body starts with '-') are enumerated per configuration, then random longer lists; a case is kept only if an independent leftmost-opener scanner recovers exactly the intended segmentation; " +
-			"oracle: byte-exact comparison with the segment model (text verbatim, trim markers strip the adjacent [ \\t\\r\\n] run only, comments vanish, whitespace-only text next to leading imports dropped) under the default HTML escaper; " +
+			"oracle: byte-exact comparison with the segment model (text verbatim, trim markers strip the adjacent [ \\t\\r\\n] run only, comments vanish, whitespace-only text next to leading imports dropped) under the default HTML escaper; every 5th case is preceded by an unrelated execution whose try bodies fail after buffering text (nothing of it may show up); " +
 			"non-trivial = some text with edge whitespace is adjacent to a comment or a trimming action; distinct by (delimiter config, sequence of segment shapes)",
 		Assumptions: []string{"actions used in the generated templates (string literal, :=, if true/false, range ints, import) behave as in the segment model", "in-memory loader returns stored bytes"},
 		NCases:      c03cases,
